@@ -35,7 +35,7 @@ PROPS["C06"] = dict(
         Job("hash", engine="hash", workers=(8, 16), cases=(150, 6000), time_s=(40, 700), **PURE),
         Job("miri-hashes", engine="hashes", workers=(3, 16), cases=(3, 25), time_s=(120, 900), **MIRI),
     ],
-    gates=dict(evaluations=(600, 20000), distinct=(40, 80), counters={"golden_checked": (9, 9), "mutations_checked": (2000, 50000), "validator_agreements": (100, 3000), "validator_agreements_on_compressed_xorbs": (30, 1000), "near_miss_hex_texts_rejected": (1000, 50000), "miri_lists": (6, 300)}),
+    gates=dict(evaluations=(600, 20000), distinct=(40, 80), counters={"golden_checked": (9, 9), "mutations_checked": (2000, 50000), "validator_agreements": (100, 3000), "validator_agreements_on_compressed_xorbs": (30, 1000), "validator_agreements_legacy_footer": (100, 5000), "near_miss_hex_texts_rejected": (1000, 50000), "miri_lists": (6, 300)}),
 )
 
 PROPS["C07"] = dict(
